@@ -140,6 +140,31 @@ func runC06(cfg *config) *Report {
 		if len(f.Bundles) > 0 {
 			rep.count("with-file-level-bundles")
 		}
+		if i%4 == 1 && len(f.CashLetters) >= 2 {
+			// ONE cash letter variable reused for every cash letter of a new file, the way a loop over deposits does: give it
+			// the next header and bundles, Create it, hand a copy to AddCashLetter - the copies already in the file must keep
+			// the totals they were built with
+			g := icl.NewFile()
+			g.SetHeader(f.Header)
+			var cl icl.CashLetter
+			reused := true
+			for ci := range f.CashLetters {
+				src := f.CashLetters[ci]
+				cl.CashLetterHeader = src.CashLetterHeader
+				cl.Bundles = src.Bundles
+				cl.Credits, cl.CreditItems, cl.RoutingNumberSummary = src.Credits, src.CreditItems, src.RoutingNumberSummary
+				if cl.Create() != nil {
+					reused = false
+					break
+				}
+				g.AddCashLetter(cl)
+			}
+			if reused && g.Create() == nil {
+				rep.Evaluations++
+				rep.count("one-cash-letter-variable-reused")
+				verifyControls(g, rep, map[string]any{"tree": dumpFile(g), "how": "one CashLetter variable given each cash letter's content in turn, Create, AddCashLetter(copy)"}, ":reused-variable")
+			}
+		}
 		rep.Evaluations++
 		d := dumpFile(f)
 		rep.nontrivial(d)
